@@ -2,7 +2,8 @@ SPEC = dict(
     id="C05",
     bin="c05",
     coq_dir="C05",
-    coq_targets=["C05/Proofs.vo", "C05/Sort.vo", "C05/Examples.vo"],
+    coq_targets=["C05/Proofs.vo", "C05/Sort.vo", "C05/Examples.vo", "C05/Dup.vo", "C05/SortTotal.vo", "C05/ExamplesTotal.vo"],
+    props=["C05/Props.v", "C05/PropsTotal.v"],
     allowed_axioms=[],
     level_text=("Unbounded Coq theorems about an executable model of write-fonts' offset packer. (1) Gate theorem: for EVERY object map and "
                 "every layout that lists each object once, is closed under links, puts parents before children and passes the "
@@ -12,26 +13,34 @@ SPEC = dict(
                 "(2) Sorts: whenever sort_kahn / sort_shortest_distance return (no panic) their order is duplicate-free, starts with the root, "
                 "contains everything reachable, has every parent before each child, and node positions are the prefix sums (one generic "
                 "loop invariant; no acyclicity hypothesis); on an acyclic graph all of whose objects are reachable sort_kahn is TOTAL: no panic, "
-                "a permutation of all objects. (3) End-to-end for the basic path: if the root exists, nobody links it, link "
+                "a permutation of all objects; (round 7) sort_shortest_distance is TOTAL under the same hypotheses plus 'fewer than 2^32 objects' "
+                "(update_parents / update_distances / assign_space_0 / main loop: no failed lookup, every distance <= total size < 2^32, obj_order <= "
+                "number of objects, model fuels suffice, the cycle check passes), for the from_objects graph, for sort_kahn's result and for its own "
+                "result (state predicate sd_ready re-established); the decidable form dag_okb of these hypotheses (rank = index in the model's Kahn "
+                "order) is proved sound and evaluated on EVERY correspondence case (check_case_t). (3) End-to-end for the basic path: if the root exists, nobody links it, link "
                 "fields are well-formed and adjustments zero (graph_hyps), then pack_objects = success implies serialize succeeds and the root "
                 "Resolves at 0; dump_table yields bytes only then, an error otherwise. The decidable forms layout_okb / graph_hypsb are proved "
                 "sound and evaluated on every successful basic-path correspondence case. The model — ObjectStore id assignment with content "
                 "dedup, update_parents, both sorts, has_overflows, pack_objects, serialize with every u32/width panic, AND (round 2) space "
                 "assignment / isolation / duplication exactly as in /repo d1b6283 — is tied to the code on every run: arbitrary object DAGs are "
                 "compiled through the public FontWrite/TableWriter/dump_table API and the exact output bytes / PackingFailed / panic are compared "
-                "with the model's vm_compute result. No theorem covers the space-assignment path (there: byte-exact correspondence + an "
+                "with the model's vm_compute result. On the space-assignment path one function is proved (round 7): duplicate_subgraph keeps every original "
+                "object, adds only fresh ids and returns a copy whose unfolding (bytes + link fields, to every depth) equals the original's, with "
+                "the invariant re-established for the next call (hypotheses freshb/closedb evaluated per case); the rest of that path "
+                "(assign_spaces, isolate_subgraph's redirects) has no theorem (there: byte-exact correspondence + an "
                 "implementation-only walker re-checking Resolves from the input description). Splitting/promotion of real GPOS lookups (PairPos 1/2, "
                 "MarkBase > 64 KiB, every device-flag subset, null and non-null devices, under a custom root with sibling blobs swept across the 16-bit "
                 "boundary) is covered by an implementation-only readback oracle (no model, no theorem): never a panic, every record and every "
                 "device/VariationIndex offset of the input found where the declared formats put it."),
     level_note=("Trusted: Coq kernel; the hand-written model coq/C05/Model.v (agreement with write-fonts checked on every run, not proved); "
-                "the harness generator and its FontWrite implementation. Not proved: totality of the sorts (acyclic + reachable => no panic), "
-                "graph_hyps for store-built maps (checked per case by graph_hypsb), anything about duplicate/isolate preserving the unfolding."),
+                "the harness generator and its FontWrite implementation. Not proved: totality of has_overflows / basic_sort as a whole "
+                "(the u32 subtraction of the gate), graph_hyps / dag_ok for store-built maps (checked per case by graph_hypsb / dag_okb), anything about "
+                "duplicate/isolate preserving the unfolding."),
     technique="Coq proof (list/Z reasoning, induction over the layout) over hand-written Gallina model + vm_compute correspondence with write-fonts through the public API + implementation-only Resolves walker",
     modelled=["write-fonts/src/write.rs: TableWriter::{add_table, write_slice, write_offset}, TableData::add_offset, TableData Eq/Hash (content), dump_table",
               "write-fonts/src/graph.rs: ObjectStore::add, Graph::{from_obj_store, from_objects, update_parents, sort_kahn, update_distances, assign_space_0, sort_shortest_distance, has_overflows, basic_sort, pack_objects, serialize, assign_spaces_hb, find_space_roots_hb, find_subgraph_hb, find_connected_nodes_hb, isolate_subgraph_hb, find_subgraph_map_hb, duplicate_subgraph, find_overflows, try_isolating_subgraphs, find_root_of_space}, Node::modified_distance, Distance ordering, OffsetLen::max_value"],
-    not_covered=["assign_spaces_hb, find_space_roots_hb, find_connected_nodes_hb, isolate_subgraph_hb, duplicate_subgraph, try_isolating_subgraphs: modelled (round 2) and compared byte-for-byte, but no theorem (duplicate_preserves / isolate_preserves not proved); implementation-only walker",
-                 "totality of sort_shortest_distance (update_distances / assign_space_0 / obj_order do not panic): not proved — partial correctness only; sort_kahn is proved total (c05_kahn_order_topological)",
+    not_covered=["assign_spaces_hb, find_space_roots_hb, find_connected_nodes_hb, isolate_subgraph_hb, try_isolating_subgraphs: modelled (round 2) and compared byte-for-byte, but no theorem (isolate_preserves not proved: the moves to the new space and the redirect loop of isolate_subgraph_hb, and that Fresh/closed survive them); duplicate_subgraph alone IS proved content-preserving (c05_duplicate_subgraph_preserves, coq/C05/Dup.v); implementation-only walker for the whole path",
+                 "totality of sort_shortest_distance: PROVED in round 7 (c05_sort_shortest_total*, coq/C05/SortTotal.v) for acyclic, fully reachable graphs with total size < 2^32 and < 2^32 objects; NOT proved: totality of has_overflows (u32 subtraction) and hence of basic_sort / pack_objects as a whole; graphs with total size >= 2^32 (sort_kahn's current_pos overflows first there: a panic with overflow-checks, a silent wrap without — not exercised, would need > 4 GiB of table data)",
                  "try_splitting_subtables / try_promoting_subtables (GPOS/GSUB lookups): not modelled; implementation-only readback oracle for PairPos 1/2 and MarkBase splits (GSUB and other lookup types: C16)",
                  "adjust_offsets (name table): pub(crate), not reachable from generated graphs; F-5 witness on the model only (Examples.v c05_adjustment_underflow_refuted)",
                  ],
